@@ -54,8 +54,8 @@ Section Refine.
   Variable cfg : config.
   Hypothesis HN : (N.of_nat (nseg (obj S)) < two64)%N.
 
-  Definition seg_req (j : nat) : request := mk_req cfg (seg_name (obj S) j) false.
-  Definition disc_req : request := mk_req cfg (prefix S) true.
+  Notation seg_req := (SegFetchSpec.seg_req S cfg).
+  Notation disc_req := (SegFetchSpec.disc_req S cfg).
 
   Lemma key_of_disc : key_of S disc_req = Some KDisc.
   Proof. unfold key_of, disc_req, mk_req. cbn [rq_cbp rq_name]. rewrite name_eqb_refl. reflexivity. Qed.
